@@ -2,6 +2,7 @@
 import FunsorVerif.Core.Sexp
 import FunsorVerif.Core.XR
 import FunsorVerif.Model.C15
+import FunsorVerif.Model.C15.Mag
 import FunsorVerif.Gen.C15OpTables
 namespace FV.Drv.C15
 open FV FV.C15
@@ -47,6 +48,18 @@ def prim1 : String → Option (Cls → CSet)
   | "cliplo" => some (fun c => [clipLoC c]) | "cliphi" => some (fun c => [clipHiC c])
   | _ => none
 
+def showMS (s : Mag.MSet) : String := "(" ++ " ".intercalate ((Mag.norm s).map Mag.M.name) ++ ")"
+def parseM (s : Sexp) : Option Mag.M := s.asAtom?.bind Mag.M.ofName?
+def showMTag : Mag.Tag → String
+  | .none => "none" | .x => "x" | .y => "y"
+
+def magPrim2 : String → Option (Mag.M → Mag.M → Mag.MSet)
+  | "add" => some Mag.addC | "sub" => some Mag.subC | "maxnp" => some Mag.maxNpC
+  | "maxpy" => some Mag.maxPyC | _ => none
+def magPrim1 : String → Option (Mag.M → Mag.MSet)
+  | "exp" => some Mag.expC | "lognp" => some Mag.logNpC | "logpy" => some Mag.logPyC
+  | "cliplo" => some (fun c => [Mag.clipLoC c]) | "neg" => some (fun c => [c.neg]) | _ => none
+
 def pairsSexp (t : List (Op × Op)) : String :=
   "ok (" ++ " ".intercalate (t.map fun (a, b) => "(" ++ a.name ++ " " ++ b.name ++ ")") ++ ")"
 
@@ -54,6 +67,7 @@ def pairsSexp (t : List (Op × Op)) : String :=
   C15 prim NAME a [b]                    class set of a primitive transfer function
   C15 special OP VARIANT cx cy ord       logaddexp | safesub | safediv | max | min | sample
   C15 special1 OP VARIANT c              reciprocal | log
+  C15 mag prim NAME a [b] | mag logaddexp|safesub VARIANT cx cy ord     magnitude-refined model (Model/C15/Mag)
   C15 lse (c…)                           ops.logsumexp over an array of classes
   C15 einsumlog OVF (x…) (y…)            numpy_log einsum "a,a->"  (OVF = true|false)
   C15 einsummax (x…) (y…)                numpy_map einsum "a,a->"
@@ -71,6 +85,24 @@ def handle (args : List Sexp) : String :=
     match prim2 nm, parseCls a, parseCls b with
     | some f, some c, some d => "ok " ++ showCS (norm (f c d))
     | _, _, _ => "err bad-args"
+  | [Sexp.atom "mag", Sexp.atom "prim", Sexp.atom nm, a] =>
+    match magPrim1 nm, parseM a with
+    | some f, some c => "ok " ++ showMS (f c)
+    | _, _ => "err bad-args"
+  | [Sexp.atom "mag", Sexp.atom "prim", Sexp.atom nm, a, b] =>
+    match magPrim2 nm, parseM a, parseM b with
+    | some f, some c, some d => "ok " ++ showMS (f c d)
+    | _, _, _ => "err bad-args"
+  | [Sexp.atom "mag", Sexp.atom op, Sexp.atom v, cx, cy, ord] =>
+    match Mag.Variant.ofName? v, parseM cx, parseM cy, parseOrd ord with
+    | some v, some cx, some cy, some ord =>
+      let i : Mag.In := ⟨cx, cy, ord⟩
+      if !i.ok then "err inconsistent-input" else
+      match op with
+      | "logaddexp" => let r := Mag.logaddexpV v i; "ok " ++ showMS r.cs ++ " " ++ showMTag r.tag
+      | "safesub" => let r := Mag.safesubArr i; "ok " ++ showMS r.cs ++ " " ++ showMTag r.tag
+      | _ => "err bad-op"
+    | _, _, _, _ => "err bad-args"
   | [Sexp.atom "special", Sexp.atom op, Sexp.atom v, cx, cy, ord] =>
     match Variant.ofName? v, parseCls cx, parseCls cy, parseOrd ord with
     | some v, some cx, some cy, some ord =>
